@@ -203,6 +203,11 @@ impl<P: Payload + Clone> Recorder<P> {
         if self.broken {
             return;
         }
+        // only live nodes are observed (the traversals of a removed node are not constrained by the specification)
+        let live = std::panic::catch_unwind(std::panic::AssertUnwindSafe(|| slot >= 1 && slot <= self.sim.arena.count() && !self.sim.arena[self.sim.id(slot)].is_removed())).unwrap_or(false);
+        if !live {
+            return;
+        }
         self.guarded(|me| me.observe_inner(slot));
     }
 
